@@ -218,3 +218,17 @@ fn contains_any_or_is_control(string: &str, values: &[char]) -> bool {
         .chars()
         .any(|x| values.iter().any(|v| &x == v || x.is_control()))
 }
+
+/// Verification hooks: expose the private predicates to the `__verif` module.
+#[cfg(serde_saphyr_verif)]
+pub(crate) mod verif {
+    pub(crate) fn numeric_looking(s: &str) -> bool {
+        super::is_numeric_looking(s)
+    }
+    pub(crate) fn ambiguous(s: &str) -> bool {
+        super::is_ambiguous(s)
+    }
+    pub(crate) fn ambiguous_value(s: &str, yaml_12: bool) -> bool {
+        super::is_ambiguous_value(s, yaml_12)
+    }
+}
